@@ -112,6 +112,18 @@ class ResampleAggregation(Blockwise):
             return arg.iterable[i]
         return super()._blockwise_arg(arg, i)
 
+    def _select_partitions(self, partitions):
+        # Select the per-partition arguments together with the partitions
+        operands = [
+            (
+                BlockwiseDep([op.iterable[i] for i in partitions])
+                if isinstance(op, BlockwiseDep)
+                else op
+            )
+            for op in super()._select_partitions(partitions).operands
+        ]
+        return type(self)(*operands)
+
 
 class ResampleCount(ResampleReduction):
     how = "count"
